@@ -417,3 +417,67 @@ Section Fmt.
     rewrite (fix_tail_clean tt _ (qc_clean tt _ A1)). apply (finish_clean tt), A1.
   Qed.
 End Fmt.
+
+(* ---- instance: the REGENERATED default templates and sanitising tables --------------------------------- *)
+From V Require Import Gen.TemplateGen.
+
+(* separator characters: "/" and the first character of every literal of the two shipped templates *)
+Definition seps_of (t : template) : list ascii :=
+  flat_map (fun sg => match s_lit sg with String c _ => [c] | EmptyString => [] end) (fst t).
+Definition gen_sep (c : ascii) : bool :=
+  existsb (Ascii.eqb c) ("/"%char :: seps_of GEN_DEFAULT ++ seps_of GEN_RAW)%list.
+
+Lemma gen_sep_slash : gen_sep "/"%char = true.
+Proof. reflexivity. Qed.
+
+Definition gen_okval : string -> bool := okval GEN_SAN_VALUE GEN_SAN_SLASH GEN_SAN_TAIL gen_sep.
+Definition gen_guarded (t : template) (fs : fields) : bool :=
+  guarded GEN_SAN_VALUE GEN_SAN_SLASH GEN_SAN_TAIL gen_sep (fst t) fs.
+
+Lemma gen_default_ok : tmpl_ok gen_sep GEN_DEFAULT = true.
+Proof. vm_compute. reflexivity. Qed.
+Lemma gen_raw_ok : tmpl_ok gen_sep GEN_RAW = true.
+Proof. vm_compute. reflexivity. Qed.
+
+(* SEVERAL fields varying together, the whole of `format` (sanitising, optional fields, tail rewriting, normpath,
+   containment check), over the regenerated default template: equal paths => equal value of every template field *)
+Lemma template_injective_p : forall fs1 fs2 p,
+  same_shape (fst GEN_DEFAULT) fs1 fs2 = true ->
+  gen_guarded GEN_DEFAULT fs1 = true -> gen_guarded GEN_DEFAULT fs2 = true ->
+  gen_format GEN_DEFAULT fs1 = FOk p -> gen_format GEN_DEFAULT fs2 = FOk p ->
+  vals (fst GEN_DEFAULT) fs1 = vals (fst GEN_DEFAULT) fs2.
+Proof.
+  intros fs1 fs2 p. apply (format_injective_p GEN_SAN_VALUE GEN_SAN_SLASH GEN_SAN_TAIL gen_sep gen_sep_slash GEN_DEFAULT).
+  exact gen_default_ok.
+Qed.
+
+Lemma template_injective_raw_p : forall fs1 fs2 p,
+  same_shape (fst GEN_RAW) fs1 fs2 = true ->
+  gen_guarded GEN_RAW fs1 = true -> gen_guarded GEN_RAW fs2 = true ->
+  gen_format GEN_RAW fs1 = FOk p -> gen_format GEN_RAW fs2 = FOk p ->
+  vals (fst GEN_RAW) fs1 = vals (fst GEN_RAW) fs2.
+Proof.
+  intros fs1 fs2 p. apply (format_injective_p GEN_SAN_VALUE GEN_SAN_SLASH GEN_SAN_TAIL gen_sep gen_sep_slash GEN_RAW).
+  exact gen_raw_ok.
+Qed.
+
+(* under the guard the template never refuses and never leaves the root: the result is the non-empty components *)
+Lemma template_guarded_total_p : forall fs o,
+  gen_guarded GEN_DEFAULT fs = true -> format_raw GEN_SAN_VALUE GEN_SAN_SLASH (fst GEN_DEFAULT) fs "" = Some o ->
+  gen_format GEN_DEFAULT fs = FOk (pth (nz (split_slash o))).
+Proof.
+  intros fs o G X.
+  apply (format_guarded_ok_p GEN_SAN_VALUE GEN_SAN_SLASH GEN_SAN_TAIL gen_sep GEN_DEFAULT fs gen_default_ok G o X).
+Qed.
+
+(* non-vacuity: two assignments that differ in TWO fields at once satisfy every hypothesis but the equal-path one;
+   the known colliding pairs violate the guard *)
+Definition ex_f1 := fields_D "dtD" "r1" "HSC" "1" "S0".
+Definition ex_f2 := fields_D "dtD" "r1" "LATISS" "1" "R22-S11".
+Lemma guard_examples :
+  same_shape (fst GEN_DEFAULT) ex_f1 ex_f2 = true /\ gen_guarded GEN_DEFAULT ex_f1 = true /\ gen_guarded GEN_DEFAULT ex_f2 = true
+  /\ gen_format GEN_DEFAULT ex_f1 = FOk "r1/dtD/dtD_HSC_S0_r1" /\ gen_format GEN_DEFAULT ex_f2 = FOk "r1/dtD/dtD_LATISS_R22-S11_r1"
+  /\ gen_guarded GEN_DEFAULT (fields_D "dtD" "r1" "A_B" "1" "C") = false
+  /\ gen_guarded GEN_DEFAULT (fields_I "dt1" "r1" "Cam A") = false
+  /\ gen_guarded GEN_DEFAULT (fields_I "dt1" "u/r2" "CamB") = false.
+Proof. vm_compute. repeat split; reflexivity. Qed.
